@@ -237,6 +237,8 @@ pub fn frame_set(name: &str) -> Vec<FrameSpec> {
                 vec![Blk::Raw(fresh(1, 25)), Blk::Comp { lits: Lits::Raw(vec![]), seqs: vec![(0, 4, ml); 32800], modes: rle_modes(0, 4, ml) }],
             ));
             v.push(plain("rle3_cks", 0x00, true, vec![Blk::Rle(17, 1023), Blk::Raw(fresh(2, 1)), Blk::Rle(34, 1024)]));
+            // a long frame behind a tiny window: 600 blocks of exactly one window (1 KiB); whoever stops draining holds 600 KiB
+            v.push(plain("long_win1k", 0x00, true, (0..600u32).map(|i| Blk::Rle((i % 250) as u8, 1024)).chain(std::iter::once(Blk::Raw(fresh(5, 25)))).collect()));
             // a block as large as the (256 KiB) window, after the window has been filled: more than 128 KiB, so it must be refused
             let ml2 = 131072u32;
             v.push(plain(
@@ -714,7 +716,7 @@ fn run_program(prog: &[Value], frames: &[FrameInfo], mode: u8, chunk: usize) -> 
                 }
                 "CollectTo" => {
                     let script: Vec<i64> = args[0].as_array().unwrap().iter().map(|x| x.as_i64().unwrap()).collect();
-                    let mut sink = Sink { script, got: vec![] };
+                    let mut sink = Sink { script, got: vec![], errs: 0 };
                     let r = ex.dec().collect_to_writer(&mut sink);
                     ret.push(json!(if r.is_ok() { "ok" } else { "err" }));
                     ret.push(json!(sink.got.len()));
@@ -722,6 +724,8 @@ fn run_program(prog: &[Value], frames: &[FrameInfo], mode: u8, chunk: usize) -> 
                         if n != sink.got.len() {
                             viol.push(format!("collect_to_writer returned {n} but the sink took {} bytes", sink.got.len()));
                         }
+                    } else if sink.errs == 0 {
+                        viol.push("collect_to_writer returned an error although the sink never failed".into());
                     }
                     ex.delivered.extend(sink.got);
                 }
@@ -771,9 +775,10 @@ fn run_program(prog: &[Value], frames: &[FrameInfo], mode: u8, chunk: usize) -> 
             let is_err = |v: &Vec<Value>| v.first().map(|x| x == "err").unwrap_or(false);
             if is_err(&ret) != is_err(exp_ret) && op != "CollectTo" {
                 viol.push(format!("returned {:?} where the specification has {:?}", ret, exp_ret));
-            } else if op == "CollectTo" && ret.get(0) != exp_ret.get(0) {
-                viol.push(format!("returned {:?} where the specification has {:?}", ret, exp_ret));
             }
+            // collect_to_writer: whether the sink's failing answer is reached depends on how many write calls the drain makes
+            // (one per physical segment of the ring: as-built layout).  What the property fixes is checked where the call is
+            // made: the count is what the sink took, an error is the sink's error, the bytes are the next bytes.
             if viol.is_empty() {
                 // exact comparison with the as-built model: differences are drift, not violations
                 let mut diffs = vec![];
@@ -947,7 +952,7 @@ pub fn fdrand(args: &[String]) {
                         }
                         _ => {
                             let sc = script(rng);
-                            let mut sink = Sink { script: sc.clone(), got: vec![] };
+                            let mut sink = Sink { script: sc.clone(), got: vec![], errs: 0 };
                             let r = dec.collect_to_writer(&mut sink);
                             if let Ok(n) = r {
                                 if n != sink.got.len() {
@@ -1241,7 +1246,7 @@ pub fn fdtrace(args: &[String]) {
                         }
                         _ => {
                             let sc: Vec<i64> = (0..rng.gen_range(0..4)).map(|_| match rng.gen_range(0..6) { 0 => -1, 1 => 0, 2 => -2, _ => rng.gen_range(1..70000) }).collect();
-                            let mut sink = Sink { script: sc.clone(), got: vec![] };
+                            let mut sink = Sink { script: sc.clone(), got: vec![], errs: 0 };
                             let r = dec.collect_to_writer(&mut sink);
                             *dcount += sink.got.len();
                             emit(tw, merge(json!({"ev": "collect_to", "script": sc, "n": sink.got.len(), "err": r.is_err()}), post(dec, *dcount)), nev);
